@@ -18,6 +18,8 @@ const c13Rule = "ACTIVE = accepted, Closed() open, context not cancelled, loop s
 	"After every round of concurrent actions (no call in flight) and at every quiescent point: (A) <=1 ACTIVE subscription per group; " +
 	"(B) the ACTIVE one is the subscription object GetGroupConsumer names; (C) a FailedPrecondition refusal needs a possible holder with a strictly newer epoch; " +
 	"(D) a subscription closed by neither its client nor its own consumer needs an accepted call of the group with an equal/newer epoch (refused, invalid and older-epoch calls leave the holder untouched). " +
+	"(E) a subscription that is not the group entry of its partition object and whose Closed() is still open needs a passage of ITS loop through the clean-up hook (attributed by goroutine identity): otherwise it was replaced without being cancelled - a state predicate judged at once; a status handed to its consumer is not a cancellation. " +
+	"Consumers are parked in one select over Messages()/Errors()/Closed(); on a status they cancel their context, Close() (api.Subscribe), or record it and keep listening (~1/5 of the seeded members); ~1/10 do not listen on Errors() at all. " +
 	"non-trivial = a loop clean-up (hook sub.beforeRemoveGroup) was let go while another subscription of the group was ACTIVE, or >=2 subscribes of one group ran concurrently with >=1 accepted; " +
 	"distinct = per-call (round, group, consumer class, epoch relation, mode, result) string + per-clean-up (delay kind, #active seen)"
 
@@ -91,6 +93,14 @@ func c13GenProgram(rng *kit.RNG) (prog []c13Round, ngroups int) {
 				a.Gate = rng.Chance(4, 10)
 				a.CloseAfterEnd = rng.Chance(6, 10)
 				a.Linger = rng.Chance(3, 10)
+				// consumer kind, derived from the action's own random word so that
+				// the rest of the program is the one earlier versions generated
+				switch k := (a.Pick >> 33) % 10; {
+				case k < 2:
+					a.Keep = true // records a status and keeps listening
+				case k == 2:
+					a.NoErr = true // does not listen on Errors() (subscriptions without a stop position only)
+				}
 			case x < 68:
 				a.Kind = "cancel"
 			case x < 78:
@@ -119,6 +129,7 @@ func c13GenProgram(rng *kit.RNG) (prog []c13Round, ngroups int) {
 func TestVerifC13Schedules(t *testing.T) {
 	rep := kit.NewReport("C13", "schedules")
 	defer rep.Write()
+	defer c13UnitWatchdog(rep, "schedules")()
 	rep.SetRule("seeded programs of 3..7 rounds, each 1..4 CONCURRENT actions on 1..2 consumer groups of one partition of a single-node server: partition.Subscribe (epoch equal / newer / older than the planned group maximum; consumer ids all distinct, from a pool of 3, or mostly the same; NEW_ONLY, EARLIEST, stop offset, STOP_LATEST, invalid stop<start; consumer goroutine optionally gated), context cancellation, sub.Close(), release of drain gates, release of parked clean-ups; 3 of 8 programs run with their epochs re-labelled monotonically onto boundary values of the uint64 domain (low: 0,1,2..; high: max-3..max; mixed: 0,1,max-1,max) for current and incoming members; the sub.beforeRemoveGroup hook passes / yields / sleeps / parks each exiting loop's clean-up (PRNG). " + c13Rule)
 	rep.Assume("a subscription whose loop has left its body but whose group entry is not yet removed still counts as a possible holder for refusals (transient state); a stale entry found at quiescence with no ACTIVE subscription is only counted, not judged")
 	workers := kit.Workers()
@@ -234,6 +245,7 @@ func c13HandoverCombos() (combos []c13Combo) {
 func TestVerifC13Handover(t *testing.T) {
 	rep := kit.NewReport("C13", "handover")
 	defer rep.Write()
+	defer c13UnitWatchdog(rep, "handover")()
 	rep.SetRule("small-scope enumeration, one step at a time (exact, no concurrency between calls): member x (epoch 5) subscribes; it then stays live / ends by itself (stop-latest, with or without the consumer's Close()) / is cancelled through its context / is Close()d; its loop's clean-up runs BEFORE the next subscribe or is parked by the hook until AFTER it; a new member (same or other consumer id; epoch 4, 5, 6; NEW_ONLY, EARLIEST, STOP_LATEST or invalid stop<start) subscribes; parked clean-ups are released; a third member (new id or the id of the second; epoch 3, 5, 6) subscribes. " + c13Rule)
 	rep.SetExhaustive(true)
 	combos := c13HandoverCombos()
